@@ -209,7 +209,18 @@ def c31(t):
     return out.finish()
 
 
-PROPS = {"C26": c26, "C35": c35, "C10": c10, "C29": c29, "C33": c33, "C34": c34, "C31": c31}
+def c32(t):
+    out = C.Outcome("C32", "model_checking", t, ["<ordinals::Rune as Display>::fmt", "<ordinals::Rune as FromStr>::from_str", "Rune::{is_reserved,reserved,commitment,RESERVED}"])
+    out.assumptions = [E2_NOTE,
+        "strings are explicit sequences of symbolic chars (any Unicode scalar) of a concrete length per query; String/Chars/write! are modelled as char lists",
+        "print->parse is decided only for names up to 7 (quick) / 8 (thorough) letters: z3 and cvc5 do not finish the 128-bit base-26 identity for longer names; parse->value is decided for lengths 0..=29",
+        "that distinct names denote distinct integers (uniqueness of bijective base-26 numerals) is used only through print(parse(s)) == s for short names",
+        "SpacedRune Display/FromStr (spacer bitmasks) is NOT decided: CBMC does not finish SpacedRune::from_str even for 7 chars and the path count of the MIR engine grows as 1.6^len"]
+    run_e2(out, "C32", t)
+    return out.finish()
+
+
+PROPS = {"C32": c32, "C26": c26, "C35": c35, "C10": c10, "C29": c29, "C33": c33, "C34": c34, "C31": c31}
 
 
 def main(pid, argv):
